@@ -371,6 +371,8 @@ where
                 match outcome {
                     Ok(CommitOutcome::Committed(committed)) => {
                         let next_commit_idx = committed.index();
+                        #[cfg(feature = "verif-hooks")]
+                        crate::verif::commit_done(commit_idx);
                         self.scheduler_ctx.publish_commit(next_commit_idx);
                         #[cfg(feature = "verif-hooks")]
                         crate::verif::rt::pt1("commit_dep_release", commit_idx);
